@@ -1,5 +1,5 @@
 CONSTANT MaxLen = 3
-CONSTANT NClass = 25
+CONSTANT NClass = 26
 INIT Init
 NEXT Next
 INVARIANT Emit
